@@ -4,4 +4,8 @@
 #![allow(dead_code, unused_imports, clippy::all)]
 
 pub mod common;
+pub mod bdoc;
 pub mod c18;
+pub mod c04;
+pub mod c05;
+pub mod c12;
